@@ -470,6 +470,22 @@ def run_algebra(tier, seed):
                               "what": "result of `%s`: identity graph has edges %s, the declared identity relations among its types are %s"
                                       % (label, [e for e in bg if e not in bd][:3] or "(missing) " + str([e for e in bd if e not in bg][:3]), len(bd)),
                               "op": label})
+                # C03 on the algebra-built typeset itself: detecting what it casts must give what it infers
+                for nm_, probe in ALGEBRA_PROBES + ALGEBRA_DETECT_PROBES:
+                    try:
+                        with warnings.catch_warnings():
+                            warnings.simplefilter("ignore")
+                            it_ = res.infer_type(probe)
+                            ct_ = res.cast_to_inferred(probe)
+                            dt_ = res.detect_type(ct_)
+                    except Exception as e:  # noqa
+                        continue
+                    if str(dt_) != str(it_) or dt_ not in res.types:
+                        fails.append({"property": "C03", "signature": "algebra-built-typeset-detect-of-cast",
+                                      "what": "`%s`: infer_type(%s) = %s but detect_type(cast_to_inferred(x)) = %s%s"
+                                              % (label, nm_, it_, dt_, "" if dt_ in res.types else " (not even a type of the typeset)"),
+                                      "op": label, "probe": nm_, "also": ["C04"]})
+                        break
                 for nm_, probe in ALGEBRA_PROBES + ALGEBRA_DETECT_PROBES:
                     try:
                         with warnings.catch_warnings():
